@@ -22,6 +22,9 @@ CLAIMED = {
  'C06': dict(
   text="Coq theorems over Cli.v, a model of the exit-code folds (validate: the plain loop, the JSON/YAML/SARIF reporter, the JUnit reporter with update_exit_code, main's Err -> exit(-1); test: plain and structured single-file handlers, get_exit_code): exit 0 iff every rules file parsed and no pair FAILed or erred; all parsed, no error, some FAIL => 19; a parse error and nothing FAILs => 5; any error => neither 0 nor 19; test: 0 iff everything parses and every stated expectation matches, 7 if all parse and some mismatch, non-zero otherwise — for any number of rules/data files. The status-code constants are regenerated from commands/mod.rs and main.rs on every run (translator) and the theorem C06_codes pins them. Tie: the real binary is run on scenario directories in plain/-o json/-v/--structured json|yaml|sarif|junit x files/stdin/--payload and `test` in single-file and directory form x plain/json/yaml/junit; its exit status is compared with the model fold evaluated by Coq on the scenario's outcome matrix, and the monitor c06_*_obs (the statement) is evaluated by Coq on the observed status.",
   note="tie = translator tools/gv/tables.py + CLI runs + hook eval_dump for the outcome matrix. The model mirrors fix e85c264 (test -o json exited 0 on an unparsable rules file). Directory-mode test folds are tied by correspondence only (no theorem yet)."),
+ 'C16': dict(
+  text="Coq theorems over TestCmd.v (get_by_rules, get_status_result, the plain and structured classification of a test case, JUnit marks): an expectation is met iff some same-named definition has the expected non-SKIP status or all are SKIP when SKIP is expected (any number of definitions); a single definition is met iff its status equals the expectation; a mismatch lists every evaluated status; the statuses matched are those of the same-named RuleCheck records in definition order; rules without expectation are never failures; every rule lands in one of passed/failed/skipped; plain, structured and JUnit classifications coincide. Tie: get_status_result is compared exhaustively (every expectation x every status list up to the tier's length) through a hook; `test -o json` of the real binary is compared, case by case inside Coq, with the model's classification of the statuses recorded for the same rules and input. Monitor: the status `test` reports as evaluated equals what `validate --structured` reports for the same document; plain/JSON/YAML/JUnit renderings agree; exit 7 iff a failed rule.",
+  note="tie = hooks test_status_result / eval_dump + CLI runs + python parsers of the four renderings. Inputs are JSON-compatible documents."),
 }
 
 NOT_CLAIMED = {}
